@@ -2694,16 +2694,18 @@ public:
     interval_t lb_i = to_interval(lb_idx);
     auto lb = lb_i.singleton();
     if (!lb) {
-      CRAB_WARN("array adaptive store range ignored because ", "lower bound",
-                lb_idx, " is not constant");
+      CRAB_WARN("array adaptive store range: lower bound ", lb_idx,
+                " is not constant. Forgetting the array ", a);
+      forget_array(a);
       return;
     }
 
     interval_t ub_i = to_interval(ub_idx);
     auto ub = ub_i.singleton();
     if (!ub) {
-      CRAB_WARN("array adaptive store range ignored because ", "upper bound ",
-                ub_idx, " is not constant");
+      CRAB_WARN("array adaptive store range: upper bound ", ub_idx,
+                " is not constant. Forgetting the array ", a);
+      forget_array(a);
       return;
     }
 
@@ -2717,13 +2719,11 @@ public:
     number_t e = *ub;
     if (num_elems >
         crab_domain_params_man::get().array_adaptive_max_array_size()) {
-      e = *lb +
-          ((number_t(
-                crab_domain_params_man::get().array_adaptive_max_array_size()) -
-            1) *
-           e_sz);
-      CRAB_WARN("array adaptive store range will ignore indexes greater than ",
-                e);
+      // too many cells to be written one by one
+      CRAB_WARN("array adaptive store range of ", num_elems,
+                " elements is too long. Forgetting the array ", a);
+      forget_array(a);
+      return;
     }
 
     for (number_t i = *lb; i <= e;) {
